@@ -790,8 +790,8 @@ def _small_scope(tier):
             for st in ("tuple", "pair"):
                 for k, rest in ((0, [["M", "K"], "N"]), (1, ["M", ["K", "N"]])):
                     pre = [{"name": "flatten", "k": k, "levels": 1, "style": st}]
-                    for order in itertools.permutations(rest):
-                        yield _xf(3, t, IDS[:3], sh, 7, None, True, {"name": "swizzle", "order": list(order)}, pre)
+                    # (swizzleRanks cannot take a tensor with a list rank id: unhashable dict key, TypeError)
+                    yield _xf(3, t, IDS[:3], sh, 7, None, True, {"name": "swizzle", "order": rest}, pre)
                     yield _xf(3, t, IDS[:3], sh, 7, None, True, {"name": "swap", "k": 0}, pre)
                     yield _xf(3, t, IDS[:3], sh, 0, None, False, {"name": "updp", "k": 1 - k}, pre)
                     yield _xf(3, t, IDS[:3], sh, 0, None, False,
@@ -817,6 +817,60 @@ def _small_scope(tier):
         # makePopulated with its OWN default (None: "no empty value")
         yield {"prop": PROP, "kind": "ctor", "how": "makePopulated-nodefault", "d": d, "t": [], "ids": IDS[:d],
                "shape": None, "dims": [2, 3, 2][:d], "dflt": None, "dflt_code": dcode(None), "initial": 1}
+    # two-step pipelines with a setFormat / setMutable IN BETWEEN: a first transform (flatten, split,
+    # swizzle, swap), formats set on its RESULT (ranks with list ids included), then a second transform
+    # at another depth / of other ranks that must leave the untouched ranks' formats alone
+    def _mid_ids(ids, pre):
+        n = pre["name"]
+        if n == "flatten":
+            k, L = pre["k"], pre["levels"]
+            return ids[:k] + [ids[k:k + L + 1]] + ids[k + L + 1:]
+        if n == "split":
+            k = pre["k"]
+            return ids[:k] + [ids[k] + ".1", ids[k] + ".0"] + ids[k + 1:]
+        if n == "swizzle":
+            return list(pre["order"])
+        if n == "swap":
+            k = pre["k"]
+            return ids[:k] + [ids[k + 1], ids[k]] + ids[k + 2:]
+        return ids
+
+    def _second_ops(mid):
+        atom = [isinstance(x, str) for x in mid]
+        out = [{"name": "updp", "k": 0}]
+        for k2 in range(len(mid) - 1):
+            if atom[k2] and atom[k2 + 1]:
+                out.append({"name": "flatten", "k": k2, "levels": 1, "style": "tuple"})
+                out.append({"name": "merge", "k": k2, "levels": 1, "style": "pair"})
+                out.append({"name": "swap", "k": k2})
+        for k2 in range(len(mid)):
+            if atom[k2]:
+                out.append({"name": "split", "kind": "uniform", "step": 2, "k": k2, "depthkw": True})
+            else:
+                out.append({"name": "unflatten", "k": k2, "levels": len(mid[k2]) - 1})
+        if all(atom):       # swizzleRanks keys a dict by rank id: a list id raises TypeError (no tensor produced)
+            out.append({"name": "swizzle", "order": mid[1:] + mid[:1]})
+            out.append({"name": "swizzle", "order": list(reversed(mid))})
+        return out
+
+    pipe_trees = {3: TREES[3][1], 4: [[0, [[1, [[2, [[3, 1], [5, 2]]]]], [2, [[0, [[4, 3]]]]]]], [1, [[3, [[1, [[0, 4]]]]]]]]}
+    pipe_sizes = {3: _cover(TREES[3][1], 3), 4: [3, 5, 4, 7]}
+    for d in (3, 4):
+        ids = IDS[:d]
+        pres = [{"name": "flatten", "k": k, "levels": L, "style": st}
+                for k in range(d - 1) for L in range(1, min(2, d - 1 - k) + 1) for st in ("tuple", "pair")]
+        pres += [{"name": "split", "kind": "uniform", "step": 2, "k": k, "depthkw": True} for k in range(d)]
+        pres += [{"name": "swizzle", "order": list(reversed(ids))}, {"name": "swap", "k": 0}]
+        for pre in pres:
+            mid = _mid_ids(ids, pre)
+            fms = _fmt_assignments(len(mid))
+            if len(fms) > 8:
+                fms = [fms[j] for j in (1, 6, len(fms) // 2 + 1, len(fms) - 1)] + [["U"] + ["C"] * (len(mid) - 1)]
+            for op2 in _second_ops(mid):
+                for fm in fms:
+                    i += 1
+                    yield _xf(d, pipe_trees[d], ids, pipe_sizes[d] if (i & 1) else None, 7 if (i & 2) else 0, fm,
+                              bool(i & 4), op2, [pre])
     # four and five ranks with a DISTINCT declared size per rank: flatten / merge at every depth x
     # levels (up to levels = 3 / 4) x style, and unflatten after the tuple / pair flattens -- shape and
     # coordinates must follow the same re-arrangement
